@@ -188,7 +188,9 @@ def r4_close_gating(ctx):
     task = F.one(r"^jsonrpsee_core::server::rpc_module::RpcModule::<Context>::register_subscription::\{closure#0\}::\{closure#0\}$")
     R.fn(task)
     writes = task.calls_to(r"MethodSink::(send|try_send|send_timeout|send_error)$")
-    R.floor("C04.R4", len(writes), 2, "close-notification writes in the subscription task")
+    R.floor("C04.R4", len(writes), 1, "close-notification writes in the subscription task")
+    builders = {(c.name() or "").split("::")[-1] for c in task.calls_to(r"sub_message_to_json$|sub_err_to_json$")}
+    R.check(builders == {"sub_message_to_json", "sub_err_to_json"}, "C04.R4", "task:both-closing-kinds", "a closing result and a closing error are both turned into a notification", "the close task builds %s only: one kind of closing value is silently dropped" % sorted(builders), "%s:%d" % (task.file, task.lo))
     tj = task.calls_to(r"^futures_util::future::try_join$")
     R.check(len(tj) == 1, "C04.R4", "task:try_join", "the task joins the handler future with the acceptance signal", "the close task no longer waits for try_join(handler, accepted): a rejected / never-accepted subscription can get a close notification", "%s:%d" % (task.file, task.lo))
     ok_t = None
